@@ -13,10 +13,12 @@ import (
 
 // Point is one recorded choice point of an execution.
 type Point struct {
-	Kind   int
-	N      int
-	RunEn  bool
-	Chosen int
+	Kind     int
+	N        int
+	RunEn    bool
+	Chosen   int
+	TracePos int // number of trace steps executed before this choice
+	Thread   int // running thread at the choice
 }
 
 // Exec is the record of one complete execution.
@@ -43,6 +45,7 @@ type Options struct {
 	MapCost    int // cost of a non-canonical map order (default 1)
 	NoShard    bool
 	OnlyKinds  []int // if set, alternatives are explored only at choice points of these kinds
+	HBR        bool  // prune prefixes whose happens-before state was already explored with at least the same budget
 }
 
 // Stats of an exploration.
@@ -54,6 +57,7 @@ type Stats struct {
 	Capped     bool   // stopped by deadline or MaxExecs: NOT exhaustive
 	CapReason  string
 	Bound      int
+	Pruned     int64 // subtrees skipped by the happens-before cache
 	Deadlocks  int64
 	Horizons   int64
 	TraceKinds int64 // distinct schedule traces (by hash)
@@ -79,7 +83,7 @@ func (c *chooser) Choose(kind, n int, runEn bool) int {
 		}
 	}
 	c.pos++
-	c.points = append(c.points, Point{kind, n, runEn, ch})
+	c.points = append(c.points, Point{kind, n, runEn, ch, vsched.TraceLen(), vsched.ThreadID()})
 	return ch
 }
 
@@ -157,6 +161,7 @@ func Explore(opt Options, body func(), visit func(*Exec) bool) (Stats, error) {
 		opt.Shards = 1
 	}
 	stack := []item{{nil, 0}}
+	seen := map[hbKey]int{}
 	top := true
 	topIdx := 0
 	for len(stack) > 0 {
@@ -197,8 +202,26 @@ func Explore(opt Options, body func(), visit func(*Exec) bool) (Stats, error) {
 		// children: deviate at every point after the prefix
 		cost := it.cost
 		var kids []item
+		var hb *hbHasher
+		if opt.HBR {
+			hb = newHB(x.Res.Trace)
+		}
 		for i := len(it.prefix); i < len(x.Points); i++ {
 			p := x.Points[i]
+			if hb != nil {
+				key := hbKey{hb.upTo(p.TracePos), int32(p.Thread), int32(p.Kind)}
+				budget := 1 << 30
+				if opt.Bound >= 0 {
+					budget = opt.Bound - cost
+				}
+				if old, ok := seen[key]; ok && old >= budget {
+					// this state (and everything reachable from it within the budget) was expanded
+					// before: the rest of this execution is a path through explored territory
+					st.Pruned++
+					break
+				}
+				seen[key] = budget
+			}
 			if len(opt.OnlyKinds) > 0 {
 				ok := false
 				for _, k := range opt.OnlyKinds {
@@ -260,4 +283,54 @@ func Confirm(opt *Options, choices []int, body func(), obs func(*Exec) string, n
 		}
 	}
 	return first, true, nil
+}
+
+// ---- happens-before state hashing ----
+
+type hbKey struct {
+	h      uint64
+	thread int32
+	kind   int32
+}
+
+type hbHasher struct {
+	trace []vsched.Step
+	pos   int
+	acc   uint64
+	tIdx  map[int]int
+	oVer  map[int]int
+}
+
+func newHB(trace []vsched.Step) *hbHasher {
+	return &hbHasher{trace: trace, tIdx: map[int]int{}, oVer: map[int]int{}}
+}
+
+func mix(a, b, c, d uint64) uint64 {
+	h := a*0x9E3779B97F4A7C15 ^ (b+0x7F4A7C15)*0xBF58476D1CE4E5B9 ^ (c+0x1CE4E5B9)*0x94D049BB133111EB ^ (d+0x133111EB)*0xD6E8FEB86659FD93
+	h ^= h >> 31
+	h *= 0x9E3779B97F4A7C15
+	h ^= h >> 29
+	return h
+}
+
+// upTo returns the order-insensitive hash of the multiset of events
+// (thread, per-thread index, object, per-object version) of the first n trace steps. Two
+// prefixes with the same multiset are equivalent up to commuting independent steps.
+func (h *hbHasher) upTo(n int) uint64 {
+	for h.pos < n && h.pos < len(h.trace) {
+		s := h.trace[h.pos]
+		h.pos++
+		h.tIdx[s.Thread]++
+		ver := 0
+		if s.Obj != 0 {
+			h.oVer[s.Obj]++
+			ver = h.oVer[s.Obj]
+		}
+		var opx uint64
+		for i := 0; i < len(s.Op); i++ {
+			opx = opx*131 + uint64(s.Op[i])
+		}
+		h.acc += mix(uint64(s.Thread)+1, uint64(h.tIdx[s.Thread]), uint64(int64(s.Obj))+7, uint64(ver)) ^ opx*0x2545F4914F6CDD1D
+	}
+	return h.acc
 }
